@@ -59,7 +59,22 @@ func (stressArea) Gen(r *hx.Rng, n int, tier string, emit func(string)) {
 	}
 }
 
-func (stressArea) Run(line string) string {
+var stressFailures int
+
+func (a stressArea) Run(line string) string {
+	if stressFailures >= 4 {
+		// the verdict of the run is already FAIL (the first failures are reported); do not spend a watchdog period on
+		// each of the remaining configurations
+		return "ok skipped: 4 configurations have already failed in this run"
+	}
+	out := a.run1(line)
+	if strings.HasPrefix(out, "FAIL") {
+		stressFailures++
+	}
+	return out
+}
+
+func (stressArea) run1(line string) string {
 	f := strings.Fields(line)
 	if len(f) != 11 || f[0] != "run" {
 		return "bad-op"
@@ -137,14 +152,14 @@ func stressChild(args []string) {
 		return n
 	}
 	go func() { // watchdog: a hang is a failure of the property (Shutdown must return), reported with the state reached
-		time.Sleep(15 * time.Second)
+		time.Sleep(8 * time.Second)
 		returned := 0
 		for i := range retSeq {
 			if retSeq[i].Load() != 0 {
 				returned++
 			}
 		}
-		fmt.Printf("FAIL hang: after 15s %d/%d Submit calls returned, %d tasks started, %d finished, Shutdown called=%v and not returned\n",
+		fmt.Printf("FAIL hang: after 8s %d/%d Submit calls returned, %d tasks started, %d finished, Shutdown called=%v and not returned\n",
 			returned, tasks, sum(startCnt), sum(finCnt), shutCalled.Load() != 0)
 		os.Exit(0)
 	}()
